@@ -11,7 +11,7 @@ from rtc import common
 from rtc.report import Report
 
 SHARDED = True
-VALUES = [0, 1, -3, 2.5, 'a', '', None, False, 7]
+VALUES = [0, 1, -3, 2.5, 'a', '', None, False, 7, [5], [], [1, 2], {'k': 1}]     # any non-tuple value, incl. lists
 
 
 def reference(d, values):
@@ -21,7 +21,8 @@ def reference(d, values):
         n = len(box.dom)
         out = box.function(*wires[off:off + n])
         m = len(box.cod)
-        outs = list(out) if m != 1 else [out]
+        # one output: the bare value, or (the library's own convention, wire values not being tuples) a 1-tuple of it
+        outs = list(out) if m != 1 else [out[0] if isinstance(out, tuple) and len(out) == 1 else out]
         if m != 1 and not isinstance(out, tuple):
             raise ValueError('box %r returned a non-tuple for %d outputs' % (box, m))
         wires = wires[:off] + outs + wires[off + n:]
@@ -42,6 +43,7 @@ def atom_boxes():
         Box('f01', 0, 1, lambda: 'c'), Box('f10', 1, 0, lambda x: ()), Box('f00', 0, 0, lambda: ()),
         Box('f02', 0, 2, lambda: ('c0', 'c1')), Box('f20', 2, 0, lambda x, y: ()),
         Box('zero', 0, 1, lambda: 0), Box('neg', 1, 1, lambda x: 0 if x else 1),
+        Box('t11', 1, 1, lambda *xs: tuple('t' + repr(x) for x in xs)),      # variadic code returning a 1-tuple
         cartesian.SWAP, cartesian.COPY, cartesian.DISCARD,
     ]
 
@@ -78,7 +80,7 @@ def check(rep, d, inputs):
 
 
 def structural(rep):
-    vals = ['a', 0, 'c', '', 2.5, None]
+    vals = ['a', [5], 'c', '', [], None]
     for l in range(0, 4):
         for r_ in range(0, 4):
             s = Swap(l, r_)
@@ -105,9 +107,9 @@ def structural(rep):
     bs = [b for b in atom_boxes() if b not in (cartesian.SWAP, cartesian.COPY, cartesian.DISCARD)]
     for f in bs:
         n, m = len(f.dom), len(f.cod)
-        for xs in itertools.product(['a', 0, ''], repeat=n):
+        for xs in itertools.product(['a', 0, '', [5]], repeat=n):
             inp = '%r on %r' % (f, xs)
-            rep.case(('natural', repr(f), xs))
+            rep.case(('natural', repr(f), repr(xs)))
             lhs, rhs = call(f >> Copy(m), xs), call(Copy(n) >> f @ f, xs)
             if lhs != rhs or lhs[0] != 'ok':
                 rep.fail('C19:copy.natural', 'f >> Copy = %r but Copy >> f @ f = %r' % (lhs, rhs), inp)
@@ -124,7 +126,7 @@ def structural(rep):
     # arity errors are refused
     f = atom_boxes()[1]
     for xs in ((), (1,), (1, 2, 3)):
-        rep.case(('arity', xs))
+        rep.case(('arity', repr(xs)))
         got = call(f, xs)
         if got[0] != 'exc':
             rep.fail('C19:arity.refused', 'calling a 2-input box on %d values returned %r' % (len(xs), got), repr(xs))
@@ -161,7 +163,7 @@ def run(tier, seed=0, shard=(0, 1)):
         if idx % shard[1] != shard[0]:
             continue
         n = len(d.dom)
-        inputs = [tuple(VALUES[(k + j) % len(VALUES)] for j in range(n)) for k in (0, 3, 5)][:2 if n == 0 else 3]
+        inputs = [tuple(VALUES[(k + j) % len(VALUES)] for j in range(n)) for k in (0, 3, 5, 8, 9)][:2 if n == 0 else 5]
         check(rep, d, inputs)
         rep.sample(repr(d))
     if shard[0] == 0:
